@@ -54,6 +54,8 @@ type oaProp struct {
 type oaSchema struct {
 	Name  string   `json:"name"`
 	Props []oaProp `json:"props"`
+	// ArrayInline: the definition is an array whose items are an inline object with these properties
+	ArrayInline bool `json:"arrayinline,omitempty"`
 }
 type oaParam struct {
 	Name     string `json:"name"`
@@ -63,7 +65,8 @@ type oaParam struct {
 }
 type oaResp struct {
 	Code  string `json:"code"`
-	Shape string `json:"shape"` // none, ref, arrayref
+	Shape string `json:"shape"` // none, ref, arrayref, inline (an inline object with the single string property Prop)
+	Prop  string `json:"prop,omitempty"`
 }
 type oaOp struct {
 	Path   string    `json:"path"`
@@ -190,6 +193,8 @@ func (d oaDoc) render() string {
 					sch = "$ref: '" + ref("Other") + "'\n"
 				case "arrayref":
 					sch = "type: array\nitems:\n  $ref: '" + ref("Other") + "'\n"
+				case "inline":
+					sch = "type: object\nproperties:\n  " + r.Prop + ":\n    type: string\n"
 				}
 				if sch != "" {
 					if d.Version == 2 {
@@ -211,6 +216,14 @@ func (d oaDoc) render() string {
 		pad = "    "
 	}
 	for _, s := range append([]oaSchema{{Name: "Other", Props: []oaProp{{Name: "z", Kind: "integer"}}}}, d.Schemas...) {
+		if s.ArrayInline {
+			b.WriteString(pad + s.Name + ":\n" + pad + "  type: array\n" + pad + "  items:\n" + pad + "    type: object\n" + pad + "    properties:\n")
+			for _, p := range s.Props {
+				fmt.Fprintf(&b, "%s      %q:\n", pad, p.Name)
+				b.WriteString(oaTypeYAML(p.Kind, pad+"        ", d.Version))
+			}
+			continue
+		}
 		b.WriteString(pad + s.Name + ":\n" + pad + "  type: object\n")
 		var req []string
 		for _, p := range s.Props {
@@ -273,7 +286,7 @@ func oaDocs(tier string) []oaDoc {
 		// endpoints
 		methods := []string{"GET", "POST", "PUT", "PATCH", "DELETE"}
 		paths := []string{"/a", "/a/{id}", "/a/{id}/b", "/a/{id}/b/{key}"}
-		respSets := [][]oaResp{{{"200", "none"}}, {{"200", "ref"}}, {{"200", "arrayref"}}, {{"200", "ref"}, {"404", "ref"}}, {{"default", "ref"}}}
+		respSets := [][]oaResp{{{Code: "200", Shape: "none"}}, {{Code: "200", Shape: "ref"}}, {{Code: "200", Shape: "arrayref"}}, {{Code: "200", Shape: "ref"}, {Code: "404", Shape: "ref"}}, {{Code: "default", Shape: "ref"}}}
 		for pi, p := range paths {
 			for mi, m := range methods {
 				for ri, rs := range respSets {
@@ -310,11 +323,28 @@ func oaDocs(tier string) []oaDoc {
 		}
 		// two methods on one path, two paths
 		out = append(out, oaDoc{Version: v, Ops: []oaOp{
-			{Path: "/a/{id}", Method: "GET", Params: []oaParam{{Name: "id", In: "path", Kind: "integer", Required: true}}, Resps: []oaResp{{"200", "ref"}}},
-			{Path: "/a/{id}", Method: "DELETE", Params: []oaParam{{Name: "id", In: "path", Kind: "integer", Required: true}}, Resps: []oaResp{{"204", "none"}}},
-			{Path: "/b", Method: "POST", Params: []oaParam{{Name: "payload", In: "body", Kind: "Other", Required: true}}, Resps: []oaResp{{"201", "ref"}}},
+			{Path: "/a/{id}", Method: "GET", Params: []oaParam{{Name: "id", In: "path", Kind: "integer", Required: true}}, Resps: []oaResp{{Code: "200", Shape: "ref"}}},
+			{Path: "/a/{id}", Method: "DELETE", Params: []oaParam{{Name: "id", In: "path", Kind: "integer", Required: true}}, Resps: []oaResp{{Code: "204", Shape: "none"}}},
+			{Path: "/b", Method: "POST", Params: []oaParam{{Name: "payload", In: "body", Kind: "Other", Required: true}}, Resps: []oaResp{{Code: "201", Shape: "ref"}}},
 		}})
-		// path-item level parameters shared by several methods, each with parameters of its own
+		// inline-object responses of several operations next to a definition that is an array of inline objects
+	for _, withArr := range []bool{false, true} {
+		if v != 2 {
+			break // the OpenAPI 3 importer wraps responses in a {header, body} type: a different representation
+		}
+		for nops := 1; nops <= 3; nops++ {
+			var ops []oaOp
+			for i := 0; i < nops; i++ {
+				ops = append(ops, oaOp{Path: fmt.Sprintf("/in%d", i), Method: []string{"GET", "POST", "PUT"}[i], Resps: []oaResp{{Code: "200", Shape: "inline", Prop: fmt.Sprintf("only%d", i)}}})
+			}
+			d := oaDoc{Version: v, Ops: ops}
+			if withArr {
+				d.Schemas = []oaSchema{{Name: "Lines", ArrayInline: true, Props: []oaProp{{Name: "total", Kind: "integer"}}}, {Name: "Zed", Props: []oaProp{{Name: "nested", Kind: "object"}}}}
+			}
+			out = append(out, d)
+		}
+	}
+	// path-item level parameters shared by several methods, each with parameters of its own
 		sharedPool := []oaParam{{Name: "id", In: "path", Kind: "integer", Required: true}, {Name: "s1", In: "query", Kind: "string", Required: true}, {Name: "s2", In: "query", Kind: "integer"},
 			{Name: "X-S3", In: "header", Kind: "string", Required: true}, {Name: "s4", In: "query", Kind: "boolean"}, {Name: "s5", In: "query", Kind: "string"}, {Name: "s6", In: "query", Kind: "string"}}
 		ownPool := map[string][]oaParam{
@@ -338,7 +368,7 @@ func oaDocs(tier string) []oaDoc {
 					for _, m := range ms {
 						own := c % 3
 						c /= 3
-						ops = append(ops, oaOp{Path: path, Method: m, Shared: sharedPool[:k], Params: ownPool[m][:own], Resps: []oaResp{{"200", "ref"}}})
+						ops = append(ops, oaOp{Path: path, Method: m, Shared: sharedPool[:k], Params: ownPool[m][:own], Resps: []oaResp{{Code: "200", Shape: "ref"}}})
 					}
 					out = append(out, oaDoc{Version: v, Ops: ops})
 				}
@@ -529,6 +559,17 @@ func checkOADoc(m *sysl.Module, d oaDoc) (problem, class string) {
 		if t == nil {
 			return fmt.Sprintf("schema %s has no type", s.Name), "schema-missing"
 		}
+		if s.ArrayInline {
+			// an alias 'sequence of X' where X carries the item object's properties
+			inner, arr := elemType(t)
+			if !arr || refTarget(inner) == "" {
+				return fmt.Sprintf("array definition %s is not a sequence of a named item type", s.Name), "arrayinline-shape"
+			}
+			t = app.GetTypes()[refTarget(inner)]
+			if t == nil {
+				return fmt.Sprintf("array definition %s: item type %s is missing", s.Name, refTarget(inner)), "arrayinline-item-missing"
+			}
+		}
 		fs := fieldsByOrigName(t)
 		for _, p := range s.Props {
 			f := fs[p.Name]
@@ -647,6 +688,22 @@ func checkOADoc(m *sysl.Module, d oaDoc) (problem, class string) {
 					ok = ok || (hasCode && strings.Contains(p, "Other") && !strings.Contains(p, "sequence of"))
 				case "arrayref":
 					ok = ok || (hasCode && strings.Contains(p, "sequence of Other"))
+				case "inline":
+					// the payload names a type that has exactly the one property of this response
+					if !hasCode || !strings.Contains(p, "<:") {
+						continue
+					}
+					tn := strings.Fields(strings.TrimSpace(strings.SplitN(p, "<:", 2)[1]))[0]
+					rt := app.GetTypes()[tn]
+					if rt == nil {
+						continue
+					}
+					rfs := fieldsByOrigName(rt)
+					if len(rfs) == 1 && rfs[r.Prop] != nil {
+						ok = true
+					} else {
+						return fmt.Sprintf("%s %s: response %s is an inline object with the single property %q but its type %s has fields %v", o.Method, o.Path, r.Code, r.Prop, tn, keysOf(rfs)), "inline-response-fields"
+					}
 				}
 			}
 			if !ok {
